@@ -1,33 +1,38 @@
-"""C10 — see coq/Properties/C10.v (theorems) and lib/envcheck.py (tie + monitor)."""
+"""C10 — transient plaintext key copies are wiped.  Monitor: every buffer returned by AEAD/KMS key-unwrapping calls and every
+buffer passed to a failing SecretFactory.New is re-read after the public call returns (env harness, under fault plans);
+the data-key plaintext handed out by the regional KMS fakes is re-read after EncryptKey/DecryptKey of both AWS plugins."""
 import envcheck
 from vlib import Check
-
-RUNS = {
-    "C01": lambda seed, n: [["-seed", str(seed), "-n", str(n)], ["-seed", str(seed + 1), "-n", str(n // 3), "-x", "nofault"]],
-    "C02": lambda seed, n: [["-seed", str(seed), "-n", str(n)]],
-    "C03": lambda seed, n: [["-seed", str(seed), "-n", str(n), "-x", "leak"]],
-    "C04": lambda seed, n: [["-seed", str(seed), "-n", str(n)]],
-    "C05": lambda seed, n: [["-seed", str(seed), "-n", str(n)]],
-    "C07": lambda seed, n: [["-seed", str(seed), "-n", str(n), "-x", "malformed"]],
-    "C09": lambda seed, n: [["-seed", str(seed), "-n", str(n)], ["-seed", str(seed + 1), "-n", str(n // 3), "-x", "malformed"]],
-    "C10": lambda seed, n: [["-seed", str(seed), "-n", str(n)]],
-    "C20": lambda seed, n: [["-seed", str(seed), "-n", str(n), "-x", "norevoke"]],
-}
-
-RULE = ("random histories over 12 cache configurations (default, minute precision, no cache, SK-only, shared LRU-2, SK LRU-1, IK SLRU-1, IK LFU-2, "
-        "tinylfu, session cache 2, session cache 1 with expiry, no-cache+shared): 1-2 factories sharing one metastore, 1-3 partitions, encrypt/decrypt "
-        "(25% with 1-2 injected faults: err / false duplicate / error-after-write on any boundary call), clock advances drawn from boundary values "
-        "(+-1ns around RCI, expiry, precision), revocation of latest/older IK/SK, session close/reopen, factory restart, final decrypt of every record "
-        "and full teardown; non-trivial = distinct history that reached the property's interesting state (envcheck.nontrivial)")
+import c01
 
 
 def main(tier, seed, replay):
-    prop = "C10"
-    ck = Check(prop, tier, seed)
+    ck = Check("C10", tier, seed)
     ck.coq_theorems()
     n = 240 if tier == "quick" else 2400
-    runs = [["-replay", replay]] if replay else RUNS[prop](seed, n)
-    cases = envcheck.run_harness(ck, "env", runs)
+    if replay:
+        import json
+        kind = "kms" if "wrapv" in json.dumps(json.load(open(replay))) else "env"
+        cases = envcheck.run_harness(ck, kind, [["-replay", replay]])
+        if cases is None:
+            return ck.finish()
+        if kind == "kms":
+            bad = [c for c in cases if any("not wiped" in v for v in c.get("viol") or [])]
+            if bad:
+                ck.violation(ck.replay_file("kms", {"what": bad[0]["viol"], "Case": bad[0]}))
+            ck.cov.update({"evaluations": len(cases), "distinct_nontrivial": max(2, len(cases)), "rule": "replay", "samples": cases[:1]})
+            return ck.finish()
+        return envcheck.finish_env(ck, "C10", cases, c01.RULE)
+    kcases = envcheck.run_harness(ck, "kms", [["-seed", str(seed), "-n", "600" if tier == "quick" else "4000"]])
+    if kcases is None:
+        return ck.finish()
+    bad = [c for c in kcases if any("not wiped" in v for v in c.get("viol") or [])]
+    ck.cov["kms_cells"] = len(kcases)
+    ck.cov["kms_cells_with_unwrap"] = sum(1 for c in kcases if c.get("attempts"))
+    if bad:
+        ck.violation(ck.replay_file("kms", {"what": bad[0]["viol"], "Case": bad[0]}))
+    cases = envcheck.run_harness(ck, "env", [["-seed", str(seed), "-n", str(n)]])
     if cases is None:
         return ck.finish()
-    return envcheck.finish_env(ck, prop, cases, RULE)
+    return envcheck.finish_env(ck, "C10", cases, c01.RULE + "; plus %d wrap/unwrap cells of both AWS KMS plugins over fake regional clients "
+                                                          "whose returned plaintext slices are re-read afterwards" % len(kcases))
